@@ -161,21 +161,7 @@ func runC19(w *World) {
 			Settle()
 		})
 	}
-	if cfg["reloads"] > 0 {
-		si := w.Srv
-		w.Sim.Go("operator", false, func() {
-			for k := 0; k < cfg["reloads"]; k++ {
-				Delay(10 + cfg["reload_delay"])
-				if err := si.Board.Reload(); err != nil {
-					w.Violate("c19-reload-fails", "message board reload: %v", err)
-				}
-				if err := si.Agree.Reload(); err != nil {
-					w.Violate("c19-reload-fails", "agreement reload: %v", err)
-				}
-				w.Probe("fault_operator_reload")
-			}
-		})
-	}
+	w.StartOperator(cfg["reloads"], cfg["reload_delay"])
 	w.Sim.Run()
 
 	for _, c := range w.Clients {
